@@ -16,11 +16,12 @@ use std::io::Read;
 const UNKNOWN_FLAG: u32 = 1_000_000;
 
 fn convert_from_gear_id(id: u32) -> u32 {
-    id & !UNKNOWN_FLAG
+    // the marker is an offset, not a bit mask: item ids may share bits with it
+    id.checked_sub(UNKNOWN_FLAG).unwrap_or(id)
 }
 
 fn convert_to_gear_id(id: &u32) -> u32 {
-    id | UNKNOWN_FLAG
+    id.wrapping_add(UNKNOWN_FLAG)
 }
 
 fn convert_to_string(s: NullString) -> String {
